@@ -12,7 +12,10 @@ static uint64_t g_oneword, g_twoword, g_fullwidth_unaligned;
 #define BFAIL(entry, cls, ...)                                                                                         \
     do {                                                                                                               \
         char _k[200];                                                                                                  \
-        snprintf(_k, sizeof _k, "C11:%s/%d-bit-words:%s", entry, W, cls);                                              \
+        if (sizeof(vbitsVal) == sizeof(vbits) || sizeof(vbits) == 8)                                                   \
+            snprintf(_k, sizeof _k, "C11:%s/%d-bit-words:%s", entry, W, cls);                                          \
+        else                                                                                                           \
+            snprintf(_k, sizeof _k, "C11:%s/%d-bit-words+%d-bit-values:%s", entry, W, (int)sizeof(vbitsVal) * 8, cls); \
         viol(_k, __VA_ARGS__);                                                                                         \
     } while (0)
 
@@ -160,29 +163,54 @@ static void pair_case(uint64_t idx, rng_t *r) {
         gbuf_free(&gb);
         STAT_INC("c11_append_sequences");
     }
-    /* streams larger than 2^32 bits (size_t offsets): lazily mapped, only a few pages are touched */
+    /* streams larger than 2^31 / 2^32 / 2^33 bits (size_t offsets): lazily mapped, only a few pages are touched */
     if (g_param[1] && (g % g_param[1]) == 3) {
-        size_t words = ((size_t)1 << 32) / (size_t)W + 4096;
+        size_t words = ((size_t)1 << 34) / (size_t)W + 4096;
         size_t bytes = words * sizeof(vbits);
         vbits *big = mmap(NULL, bytes, PROT_READ | PROT_WRITE, MAP_PRIVATE | MAP_ANONYMOUS | MAP_NORESERVE, -1, 0);
         if (big == MAP_FAILED) {
             STAT_INC("c11_huge_stream_skipped_mmap_failed");
         } else {
-            size_t far = ((size_t)1 << 32) + (size_t)offmod + 64 * (size_t)(g % 50);
-            size_t near = far - ((size_t)1 << 32);
-            uint64_t v = gen_bsvalue(r, width) | 1;
-            v &= width == 64 ? UINT64_MAX : ((1ULL << width) - 1);
-            g_ctx = "varintBitstreamSet";
-            snprintf(g_sub, sizeof g_sub, "huge stream offset=%zu width=%d", far, width);
-            varintBitstreamSet(big, far, (size_t)width, (vbitsVal)v);
-            uint64_t back = (uint64_t)varintBitstreamGet(big, far, (size_t)width);
-            uint64_t low = (uint64_t)varintBitstreamGet(big, near, (size_t)width);
-            uint64_t stored = 0;
-            for (int b = 0; b < width; b++) stored = (stored << 1) | (uint64_t)mbit(big, far + (size_t)b);
-            if (back != v || stored != v) BFAIL("varintBitstreamSet", "read-back-differs-from-written", "offset %zu (>= 2^32) width %d wrote %" PRIu64 " read %" PRIu64 " stored %" PRIu64, far, width, v, back, stored);
-            else if (low != 0) BFAIL("varintBitstreamSet", "changed-bits-outside-range", "write at offset %zu (>= 2^32) changed the field at offset %zu", far, near);
+            static const uint64_t bases[] = {1ULL << 31, 1ULL << 32, (1ULL << 32) + (1ULL << 31), 1ULL << 33, (1ULL << 31) - 4096, (1ULL << 34) - 8192};
+            for (size_t bi = 0; bi < sizeof bases / sizeof bases[0]; bi++) {
+                size_t far = (size_t)bases[bi] + (size_t)offmod + (size_t)W * (size_t)(g % 50);
+                /* where a 31- or 32-bit truncation of the offset would land */
+                size_t alias[2] = {far & 0x7fffffffULL, far & 0xffffffffULL};
+                uint64_t v = gen_bsvalue(r, width) | 1;
+                v &= width == 64 ? UINT64_MAX : ((1ULL << width) - 1);
+                /* the two words around the field, before */
+                size_t w0 = far / (size_t)W;
+                vbits around[4] = {big[w0 ? w0 - 1 : 0], big[w0], big[w0 + 1], big[w0 + 2]};
+                vbits expect[4];
+                memcpy(expect, around, sizeof expect);
+                for (int b = 0; b < width; b++) {
+                    size_t p = far + (size_t)b - (w0 ? w0 - 1 : 0) * (size_t)W;
+                    msetbit(expect, p, (int)((v >> (width - 1 - b)) & 1));
+                }
+                g_ctx = "varintBitstreamSet";
+                snprintf(g_sub, sizeof g_sub, "huge stream offset=%zu width=%d", far, width);
+                varintBitstreamSet(big, far, (size_t)width, (vbitsVal)v);
+                uint64_t back = (uint64_t)varintBitstreamGet(big, far, (size_t)width);
+                uint64_t stored = 0;
+                for (int b = 0; b < width; b++) stored = (stored << 1) | (uint64_t)mbit(big, far + (size_t)b);
+                vbits after[4] = {big[w0 ? w0 - 1 : 0], big[w0], big[w0 + 1], big[w0 + 2]};
+                if (back != v || stored != v) BFAIL("varintBitstreamSet", "read-back-differs-from-written", "offset %zu (>= 2^31) width %d wrote %" PRIu64 " read %" PRIu64 " stored %" PRIu64, far, width, v, back, stored);
+                else if (w0 && memcmp(after, expect, sizeof after)) BFAIL("varintBitstreamSet", "changed-bits-outside-range", "write at offset %zu (>= 2^31) width %d changed neighbouring bits", far, width);
+                for (int ai = 0; ai < 2; ai++) {
+                    if (alias[ai] + 200 < far) {
+                        uint64_t low = (uint64_t)varintBitstreamGet(big, alias[ai], (size_t)width);
+                        if (low != 0) {
+                            BFAIL("varintBitstreamSet", "changed-bits-outside-range", "write at offset %zu changed the field at offset %zu", far, alias[ai]);
+                            varintBitstreamSet(big, alias[ai], (size_t)width, 0);
+                        }
+                    }
+                }
+                /* clear again so that later aliases read zero */
+                varintBitstreamSet(big, far, (size_t)width, 0);
+                if (far % (size_t)W + (size_t)width > (size_t)W) STAT_INC("c11_huge_stream_writes_spanning_two_words");
+                STAT_INC("c11_huge_stream_writes");
+            }
             munmap(big, bytes);
-            STAT_INC("c11_huge_stream_writes");
         }
         g_sub[0] = 0;
     }
